@@ -792,6 +792,12 @@ func (m *Manager) configureTasks(envId uid.ID, tasks Tasks) error {
 		if respError != nil {
 			errText := respError.Error()
 			if len(strings.TrimSpace(errText)) != 0 {
+				// a single target: its failure only matters if the task is critical, as in the multi-response branch
+				if len(receivers) == 1 && !m.isCriticalTarget(receivers[0]) {
+					log.WithField("partition", envId).
+						Warnf("CONFIGURE could not complete for non-critical task, error: %s", errText)
+					return nil
+				}
 				return errors.New(response.Err().Error())
 			}
 			// FIXME: improve error handling ↑
@@ -799,6 +805,18 @@ func (m *Manager) configureTasks(envId uid.ID, tasks Tasks) error {
 	}
 
 	return nil
+}
+
+// isCriticalTarget reports whether a command target is a critical task (unknown tasks count as critical).
+func (m *Manager) isCriticalTarget(target controlcommands.MesosCommandTarget) bool {
+	task := m.GetTask(target.TaskId.Value)
+	if task == nil {
+		return true
+	}
+	if task.GetTraits().Critical {
+		return true
+	}
+	return task.parent != nil && task.parent.GetTaskTraits().Critical
 }
 
 func (m *Manager) transitionTasks(envId uid.ID, tasks Tasks, src string, event string, dest string, commonArgs controlcommands.PropertyMap) error {
@@ -872,6 +890,12 @@ func (m *Manager) transitionTasks(envId uid.ID, tasks Tasks, src string, event s
 		if respError != nil {
 			errText := respError.Error()
 			if len(strings.TrimSpace(errText)) != 0 {
+				// a single target: its failure only matters if the task is critical, as in the multi-response branch
+				if len(receivers) == 1 && !m.isCriticalTarget(receivers[0]) {
+					log.WithField("partition", envId).
+						Warnf("%s could not complete for non-critical task, error: %s", event, errText)
+					return nil
+				}
 				return errors.New(response.Err().Error())
 			}
 			// FIXME: improve error handling ↑
